@@ -1257,7 +1257,9 @@ class Context:
                 self.qcount += 1
                 return VBool(z3.Const('missing-closure!%d' % self.qcount, T.B))
             if not isinstance(f, (VClosure, VFunc)):
-                raise Unsupported('in_closure: not a closure of the verified text: %r' % (f,), node)
+                # at a call site of the contract the callable is only known as a term: nothing is learnt here
+                self.qcount += 1
+                return VBool(z3.Const('closure-claim!%d' % self.qcount, T.B))
             saved = I.st
             tmp = saved.snapshot()
             tmp.trace = []
